@@ -1139,6 +1139,9 @@ class LinkBook:
             if first['plain']:
                 return 'symlink-outward-at-creation-plain', (made,)
             return 'symlink-outward-at-creation', (made,)
+        # created legally (resolving inside the root); what happened then?
+        made = 'symlink ' + ('absolute' if first['creation'] == 'absolute'
+                             else 'relative')
         inst = self.inst.get((ino, loc), {})
         if first['loc'] != loc:
             return 'symlink-moved', (made, inst.get('by', '?'))
@@ -1194,6 +1197,11 @@ PROBE_OPS = ['lstat', 'stat', 'readlink', 'realpath', 'open_r', 'opendir',
              'setstat', 'open_w', 'remove', 'mkdir', 'rmdir']
 
 
+# one name beyond the link: the operations that differ in how they resolve
+PROBE_OPS_BEYOND = ['lstat', 'open_r', 'opendir', 'open_w', 'remove', 'mkdir',
+                    'rmdir']
+
+
 def run_script(world, init_tree, script, final_tree, escset, probes=None):
     """One generated script: replay it (monitor after every step, final tree
     compared with the model's), then the probe battery: every probe operation
@@ -1215,12 +1223,13 @@ def run_script(world, init_tree, script, final_tree, escset, probes=None):
     paths = []
     for loc in links:
         cp = '/'.join(loc[2:])
-        paths += [cp, cp + '/a']
+        paths += [(cp, probes or PROBE_OPS),
+                  (cp + '/a', probes or PROBE_OPS_BEYOND)]
     book = build['book']
     dirty = False
     base = _shape(tree)
-    for path in paths:
-        for op in (probes or PROBE_OPS):
+    for path, ops in paths:
+        for op in ops:
             if dirty:
                 again = run_sequence(world, init_tree, script)
                 book = again['book']
